@@ -15,6 +15,7 @@ import (
 	"path/filepath"
 	"sort"
 	"strings"
+	"syscall"
 	"time"
 
 	"github.com/v-byte-cpu/sx/pkg/scan/arp"
@@ -153,5 +154,84 @@ func e2eArpComponent(r *hx.Run) {
 		sort.Strings(inj)
 		r.Count(fmt.Sprintf("answering:%d", len(final)))
 		r.Case(fmt.Sprintf("answering/%d", len(final)), "e2earp", fmt.Sprint(base), fmt.Sprint(ones), strings.Join(inj, ","), macCanon(gw), obs)
+	}
+
+	// the output as it is at ANY moment: `sx arp --json > cache` of a big network is ended by a signal it does not
+	// handle (timeout(1)'s SIGTERM, SIGKILL, the OOM killer) while results are being printed, or the file is copied
+	// while the scan runs; what is on stdout then is still a cache the loader accepts, made of printed = answered hosts
+	kills := 2
+	if r.Tier == "thorough" {
+		kills = 8
+	}
+	for it := 0; it < kills; it++ {
+		sig := []syscall.Signal{syscall.SIGKILL, syscall.SIGTERM}[it%2]
+		lab.settle(30 * time.Millisecond)
+		lab.take()
+		rate := 300 + rng.Intn(500)
+		p, err := startSX(false, nil, "arp", "--json", "--exit-delay", "20s", "--rate", fmt.Sprintf("%d/s", rate), "10.0.0.0/24")
+		if err != nil {
+			panic(err)
+		}
+		answered := map[uint32]net.HardwareAddr{}
+		from := 0
+		// long enough for 60 and more results (more than 4096 bytes), short of the end of the scan
+		stop := time.Now().Add(time.Duration(250+rng.Intn(350)) * time.Millisecond)
+		started := false
+		for !p.exited() {
+			fs := lab.since(from)
+			from += len(fs)
+			for _, b := range fs {
+				if len(b) < 42 || !bytes.Equal(b[6:12], lab.srcMAC) || b[12] != 0x08 || b[13] != 0x06 || b[21] != 1 {
+					continue
+				}
+				if !started {
+					started = true
+					stop = time.Now().Add(time.Duration(250+rng.Intn(350)) * time.Millisecond)
+				}
+				t := binary.BigEndian.Uint32(b[38:42])
+				if t == labNet|1 || binary.BigEndian.Uint32(b[28:32]) != labNet|1 {
+					continue
+				}
+				m := net.HardwareAddr{0x00, 0x1b, 0x21, byte(t), byte(rng.Intn(256)), byte(rng.Intn(256))}
+				rep := replyTo("pkt-arp", b)
+				copy(rep[6:12], m)
+				copy(rep[22:28], m)
+				if lab.inject(rep) == nil {
+					answered[t] = m
+				}
+			}
+			if time.Now().After(stop) {
+				p.signal(sig)
+				break
+			}
+			time.Sleep(200 * time.Microsecond)
+		}
+		res := p.wait(10 * time.Second)
+		obs := ""
+		cache := arp.NewCache()
+		lines := strings.Count(res.stdout, "\n")
+		if res.timedOut {
+			obs = "FAIL still running"
+		} else if err := arp.FillCache(cache, bytes.NewReader([]byte(res.stdout))); err != nil {
+			obs = "REJECTED:" + hx.HexS(err.Error())
+		} else {
+			var loaded []string
+			for i := uint32(0); i < 256; i++ {
+				ip := make(net.IP, 4)
+				binary.BigEndian.PutUint32(ip, labNet|i)
+				if m := cache.Get(ip); m != nil {
+					loaded = append(loaded, fmt.Sprintf("%d=%s", labNet|i, macCanon(m)))
+				}
+			}
+			obs = fmt.Sprintf("load=%s;lines=%d", strings.Join(loaded, ","), lines)
+		}
+		var inj []string
+		for ip, m := range answered {
+			inj = append(inj, fmt.Sprintf("%d=%s", ip, macCanon(m)))
+		}
+		sort.Strings(inj)
+		r.Count("killed:" + sig.String())
+		r.Count(fmt.Sprintf("killed-with-4k-blocks:%d", len(res.stdout)/4096))
+		r.Case(fmt.Sprintf("killed/%s/blocks%d", sig, len(res.stdout)/4096), "e2earpkill", strings.Join(inj, ","), obs)
 	}
 }
